@@ -60,7 +60,7 @@ func c05Proxy(r *Run) {
 		frames[i] = GenFrame(T, GenOpts{Version: v, Requests: true, Responses: true, MaxBytes: 20000, BigChance: 0.1,
 			Compressible: T.Bool("compressible", 0.5), HeaderFlags: true, AllowTracingOnRequests: true}, int16(T.Draw("stream", 120)))
 		if comp != primitive.CompressionNone && T.Bool("compressflag", 0.6) {
-			frames[i].SetCompress(true)
+			markCompressed(T, frames[i])
 		}
 		modes[i] = T.Draw("mode", len(c05Modes))
 		seekable[i] = T.Bool("seekable", 0.4)
@@ -96,59 +96,134 @@ func c05Proxy(r *Run) {
 		_ = a1.Close()
 	})
 	type consumed struct {
-		seek    bool
-		pos     int64 // position in the seekable buffer after the operation
-		bufLen  int
-		srcPos  int64 // bytes consumed from the link after the operation
+		kind   string // "link", "bytes.Reader", "bytes.Buffer"
+		pos    int64  // bytes consumed from the buffered source after the operation (buffered kinds)
+		want   int64  // where the frame ends inside the buffered source
+		srcPos int64  // bytes consumed from the link after the operation
+		mode   int
 	}
 	var cons []consumed
+	srcKinds := make([]int, n)
+	batch := make([]int, n)
+	for i := range srcKinds {
+		srcKinds[i] = T.DrawP("srckind", 3, 0.4) // 0 link, 1 bytes.Reader (seekable), 2 bytes.Buffer
+		batch[i] = 1 + T.DrawP("batch", 3, 0.5)  // frames buffered together when the source is a buffer
+	}
 	r.Go("proxy", func() {
 		defer func() { pDone = true; _ = b1.Close() }()
 		src := &posReader{src: a2}
 		hl := v.FrameHeaderLengthInBytes()
-		for i := 0; i < n; i++ {
-			var in io.Reader = src
-			var seek *bytes.Reader
-			c := consumed{seek: seekable[i]}
-			if seekable[i] {
-				// buffer exactly one frame (header, then the declared body length) into a seekable reader
-				hdr := make([]byte, hl)
-				if _, err := io.ReadFull(src, hdr); err != nil {
+		// readOne copies exactly one frame (header, then the declared body length) from the link
+		readOne := func() ([]byte, error) {
+			hdr := make([]byte, hl)
+			if _, err := io.ReadFull(src, hdr); err != nil {
+				return nil, err
+			}
+			rh, err := RParseHeader(hdr)
+			if err != nil || rh.Length < 0 {
+				return nil, fmt.Errorf("unparsable header on the link: %v", err)
+			}
+			buf := make([]byte, hl+int(rh.Length))
+			copy(buf, hdr)
+			if _, err := io.ReadFull(src, buf[hl:]); err != nil {
+				return nil, err
+			}
+			return buf, nil
+		}
+		i := 0
+		for i < n {
+			kind := srcKinds[i]
+			if kind == 0 {
+				err := c05Forward(pcodec, modes[i], src, b1)
+				r.Yield("proxy.forwarded")
+				if err != nil {
 					if !writerFailed {
 						proxyErr, proxyAt = err, i
 					}
 					return
 				}
-				rh, err := RParseHeader(hdr)
-				if err != nil || rh.Length < 0 {
-					proxyErr, proxyAt = fmt.Errorf("unparsable header on the link: %v", err), i
+				cons = append(cons, consumed{kind: "link", srcPos: src.n, mode: modes[i]})
+				r.Probes["mode:"+c05Modes[modes[i]]]++
+				i++
+				continue
+			}
+			// buffered source holding k whole frames back to back
+			k := batch[i]
+			if i+k > n {
+				k = n - i
+			}
+			var all []byte
+			var ends []int64
+			for j := 0; j < k; j++ {
+				one, err := readOne()
+				if err != nil {
+					if !writerFailed {
+						proxyErr, proxyAt = err, i+j
+					}
 					return
 				}
-				buf := make([]byte, hl+int(rh.Length))
-				copy(buf, hdr)
-				if _, err := io.ReadFull(src, buf[hl:]); err != nil {
-					proxyErr, proxyAt = err, i
-					return
+				all = append(all, one...)
+				ends = append(ends, int64(len(all)))
+			}
+			var in io.Reader
+			var posOf func() int64
+			kindName := "bytes.Reader"
+			if kind == 1 {
+				br := bytes.NewReader(all)
+				in = br
+				posOf = func() int64 { p, _ := br.Seek(0, io.SeekCurrent); return p }
+			} else {
+				bb := bytes.NewBuffer(all)
+				total := int64(len(all))
+				in = bb
+				posOf = func() int64 { return total - int64(bb.Len()) }
+				kindName = "bytes.Buffer"
+			}
+			if k > 1 && modes[i] == 2 {
+				// a proxy that queues: decode and convert the whole batch first, encode afterwards
+				var raws []*frame.RawFrame
+				for j := 0; j < k; j++ {
+					raw, err := pcodec.DecodeRawFrame(in)
+					if err == nil {
+						var f *frame.Frame
+						if f, err = pcodec.ConvertFromRawFrame(raw); err == nil {
+							raw, err = pcodec.ConvertToRawFrame(f)
+						}
+					}
+					r.Yield("proxy.batch.decoded")
+					if err != nil {
+						proxyErr, proxyAt = err, i+j
+						return
+					}
+					raws = append(raws, raw)
+					cons = append(cons, consumed{kind: kindName, pos: posOf(), want: ends[j], srcPos: src.n, mode: 2})
 				}
-				seek = bytes.NewReader(buf)
-				in = seek
-				c.bufLen = len(buf)
-			}
-			err := c05Forward(pcodec, modes[i], in, b1)
-			r.Yield("proxy.forwarded")
-			if err != nil {
-				if writerFailed {
-					return // the writer stopped early (already reported); the stream simply ends
+				for j, raw := range raws {
+					if err := pcodec.EncodeRawFrame(raw, b1); err != nil {
+						proxyErr, proxyAt = err, i+j
+						return
+					}
+					r.Yield("proxy.batch.encoded")
+					modes[i+j] = 2
 				}
-				proxyErr, proxyAt = err, i
-				return
+				r.Probes["mode:batch convert then encode"] += k
+			} else {
+				for j := 0; j < k; j++ {
+					err := c05Forward(pcodec, modes[i+j], in, b1)
+					r.Yield("proxy.forwarded")
+					if err != nil {
+						proxyErr, proxyAt = err, i+j
+						return
+					}
+					cons = append(cons, consumed{kind: kindName, pos: posOf(), want: ends[j], srcPos: src.n, mode: modes[i+j]})
+					r.Probes["mode:"+c05Modes[modes[i+j]]]++
+				}
 			}
-			if seek != nil {
-				c.pos, _ = seek.Seek(0, io.SeekCurrent)
+			r.Probes["source:"+kindName] += k
+			if k > 1 {
+				r.Probes["multi_frame_buffers"]++
 			}
-			c.srcPos = src.n
-			cons = append(cons, c)
-			r.Probes["mode:"+c05Modes[modes[i]]]++
+			i += k
 		}
 	})
 	r.Go("reader", func() {
@@ -181,11 +256,11 @@ func c05Proxy(r *Run) {
 			break
 		}
 		sr := sent[i]
-		if c.seek && int(c.pos) != c.bufLen {
-			r.Violate(P, "consumption", "seekable:"+c05Modes[modes[i]], "%s on a seekable source: after frame %d (%s, %d bytes) the position is %d", c05Modes[modes[i]], i, sr.kind, c.bufLen, c.pos)
+		if c.kind != "link" && c.pos != c.want {
+			r.Violate(P, "consumption", c.kind+":"+c05Modes[c.mode], "%s reading from a %s that holds several frames: after frame %d (%s) the position is %d, the frame ends at %d", c05Modes[c.mode], c.kind, i, sr.kind, c.pos, c.want)
 		}
-		if int(c.srcPos) != sr.end {
-			r.Violate(P, "consumption", "stream:"+c05Modes[modes[i]], "%s (seekable=%v): after frame %d (%s) %d bytes had been consumed from the link; the frame spans [%d,%d)", c05Modes[modes[i]], c.seek, i, sr.kind, c.srcPos, sr.start, sr.end)
+		if c.kind == "link" && int(c.srcPos) != sr.end {
+			r.Violate(P, "consumption", "stream:"+c05Modes[c.mode], "%s on the link: after frame %d (%s) %d bytes had been consumed; the frame spans [%d,%d)", c05Modes[c.mode], i, sr.kind, c.srcPos, sr.start, sr.end)
 		}
 	}
 	// end to end: the reader sees exactly the non-dropped frames, equal to what was written, in order
@@ -323,7 +398,7 @@ func c05Reencode(r *Run) {
 		for i := 0; i < n; i++ {
 			f := GenFrame(T, GenOpts{Version: v, Requests: true, Responses: true, MaxBytes: 3000, BigChance: 0.1, Compressible: true, HeaderFlags: true}, int16(T.Draw("stream", 120)))
 			if comp != primitive.CompressionNone && T.Bool("compressflag", 0.5) {
-				f.SetCompress(true)
+				markCompressed(T, f)
 			}
 			var buf bytes.Buffer
 			if err := codec.EncodeFrame(f, &buf); err != nil {
